@@ -315,14 +315,16 @@ PROPS['C18'] = Prop(
 )
 
 PROPS['C19'] = Prop(
-    functions=[],
+    functions=['shell:_try_rule'],
     bounded=[('bounded.tools', 'c19')],
     level='other',
-    technique='bounded stand-in (the shell contracts are not built in this revision)',
-    explanation='BOUNDED: random policy files x project/domain/system tokens x is_admin x target files x requested rule; '
+    technique='contract-based deductive verification of the verdict printing (own VC generator + z3); derivation of credentials/target and the output order by a labelled bounded stand-in',
+    explanation='PROVED for every built-in check tree, dict target and JSON-like credentials: _try_rule prints exactly one '
+                'line, "passed: <key>" iff the check -- told <key> as the policy name -- allows, "failed: <key>" iff it '
+                'denies; an exception is reported, never turned into a verdict. BOUNDED: random policy files x project/domain/system tokens x is_admin x target files x requested rule; '
                 'the printed verdicts and their order against Enforcer.enforce on the documented derivation of '
-                'credentials and target. Nothing is proved for C19 in this revision.',
-    assumptions=['bounded only'],
+                'credentials and target.',
+    assumptions=COMMON_ASSUME + ['tool() itself (file reading, token to credentials, sorted output) is decided by the stand-in only'],
 )
 
 for _pid in PROPS:
